@@ -18,7 +18,9 @@ RULE = (
     "ops.amb / reactivex.amb, and by "
     "window_with_time / window_with_time_or_count (one source thread that also sleeps 'S'=1 timespan / 's'=half a "
     "timespan on the fake clock, racing the operator's timer threads started through the patched TimeoutScheduler; the "
-    "probe subscribes to every window with a child probe). One downstream probe (plus one per window) yields inside every "
+    "probe subscribes to every window with a child probe; optionally the probe is a slow consumer that blocks on the fake "
+    "clock inside one call, e.g. inside the delivery of the very first window made at subscribe time, so that a timer armed "
+    "too early fires meanwhile - for those cases only the overlap/grammar clauses are judged). One downstream probe (plus one per window) yields inside every "
     "callback and records the calls in flight. Engine DET (vlib/det.py) runs the real code with line-level yield points "
     "('full': every reactivex line; 'focus': the operator's own files + autodetachobserver.py + internal/concurrency.py "
     "+ every lock operation + probe yields). enum-k1: every schedule with <=1 preemption for all 2-source programs over "
@@ -48,6 +50,7 @@ ASSUMPTIONS = [
     "CPython GIL-build atomicity: a source line is the unit of interleaving; locks/timers/threads are the cooperative replacements of vlib/det.py",
     "bounds: <=3 sources, <=3 elements per source, exhaustive <=1 preemption everywhere and <=2 on the listed programs, <=3 drawn",
     "lost or misrouted values of the non-window combinators (e.g. an inner source left in merge(max_concurrent)'s queue) are outside this property's statement and not judged",
+    "a slow consumer (probe sleeping inside a call) is generated for the window operators only, and then only overlap/grammar are judged",
     "window timing equalities rely on Engine DET's clock: it only advances when no thread is runnable, the source never sleeps inside an emission and probes never sleep, so a timer action runs at exactly its due instant",
 ]
 TIMEOUT = {"quick": 300, "thorough": 3600}
@@ -137,7 +140,8 @@ def _build(case):
     else:
         raise HarnessError(f"bad op {op}")
     windows = op in WINDOW_FAMILY
-    probe = conc.Probe("out", window_factory=(lambda parent, k: conc.Probe(f"win{k}")) if windows else None)
+    ps = case.get("probe_sleep")  # [call index, seconds]: the downstream observer is slow inside that call (fake clock)
+    probe = conc.Probe("out", window_factory=(lambda parent, k: conc.Probe(f"win{k}")) if windows else None, sleep_at={ps[0]: ps[1]} if ps else None)
     if not windows:
         obs.subscribe(probe)
     for s in S + ([outer] if outer is not None else []):
@@ -208,8 +212,8 @@ def _judge(ctx, res):
             # every probe sits behind an AutoDetachObserver, which swallows a SEQUENTIAL second terminal / late on_next; a
             # grammar violation at the probe therefore means two threads were inside that gate at once: same root cause
             return "unserialized", f"grammar: probe {p.name} saw {p.kinds()!r} (values {[e[1] for e in p.events]}, tids {[e[2] for e in p.events]})"
-    if ctx["case"]["op"] in WINDOW_FAMILY:
-        return _judge_windows(ctx, res)
+    if ctx["case"]["op"] in WINDOW_FAMILY and not ctx["case"].get("probe_sleep"):
+        return _judge_windows(ctx, res)  # the exact-time rules assume a downstream that never blocks; skipped for a sleeping probe
     return None
 
 
@@ -385,6 +389,10 @@ def _classes(ctx, res):
         cl.append("horizon")
     if res.nthreads > ctx["nprog"]:
         cl.append("timer-threads")
+    if probes[0].slept:
+        cl.append(f"probe-slept-in-call:{probes[0].slept[0]}")
+        if any(e[2] != probes[0].events[0][2] for e in probes[0].events):
+            cl.append("probe-slept+other-thread-called-downstream")
     cl += sorted("win:" + c for c in ctx.get("wclasses", ()))
     return cl
 
@@ -450,6 +458,14 @@ _WINDOW_EXTRA = [
     ("window_time", "NSNSNC", {"shift": 2.0}),
     ("window_time", "sNSsNC", {"shift": 0.5}),
 ]
+# round 6: a slow consumer - the probe blocks (fake clock) inside one call, in particular inside the delivery of the very
+# first window, which the operators make at subscribe time on the subscribing thread: is a timer already armed then?
+_WINDOW_SLEEP = [
+    ("window_time", "NSNC", {"shift": None, "probe_sleep": [0, 1.5]}),
+    ("window_time", "NC", {"shift": 0.5, "probe_sleep": [0, 1.5]}),
+    ("window_time_count", "NSNC", {"n": 2, "probe_sleep": [0, 1.5]}),
+    ("window_time", "NSNSC", {"shift": None, "probe_sleep": [1, 0.5]}),
+]
 _WINDOW_EXTRA_THOROUGH = [
     ("window_time_count", "SNsC", {"n": 1}),
     ("window_time_count", "NNNsNSE", {"n": 3}),
@@ -487,6 +503,7 @@ def _enum_k1(tier):
             (True, 1, _nested(A2, forms=("flat_map",), outers=_OUTERS[:2])),
             (True, 1, _windows(_TIMED[:4], ns=(2,))),
             (True, 1, _window_extra(_WINDOW_EXTRA)),
+            (True, 1, _window_extra(_WINDOW_SLEEP)),
             (True, 1, _nested3(outers=(("IIIE", 3),), forms=("merge_all",))),
             (False, 1, _plain(A2, triples=False)),
             (False, 1, _nested(A2, outers=_OUTERS[:1], ns=(1,))),
@@ -498,6 +515,8 @@ def _enum_k1(tier):
             (True, 1, _nested(A5)),
             (True, 1, _windows(_TIMED, shifts=(None, 0.5, 2.0), ns=(1, 2, 3))),
             (True, 1, _window_extra(_WINDOW_EXTRA + _WINDOW_EXTRA_THOROUGH)),
+            (True, 1, _window_extra(_WINDOW_SLEEP)),
+            (False, 1, _window_extra(_WINDOW_SLEEP[:3])),
             (True, 2, _windows(_TIMED[:3], ns=(2,))),
             (True, 2, _window_extra(_WINDOW_EXTRA[:3])),
             (True, 1, _nested3(forms=MERGE_ALL_FAMILY, ns=(1, 2))),
@@ -541,6 +560,7 @@ def _gen_for(op):
     base = {"op": st.just(op), "focus": st.sampled_from([False, False, True]), "sched": conc.sched_walks(3)}
     if op in WINDOW_FAMILY:
         base["srcs"] = st.lists(_timed, min_size=1, max_size=1)
+        base["probe_sleep"] = st.one_of(st.none(), st.none(), st.tuples(st.integers(0, 2), st.sampled_from([0.5, 1.5])).map(list))
         if op == "window_time":
             base["shift"] = st.sampled_from([None, 0.5, 2.0])
         else:
